@@ -207,7 +207,13 @@ def recursion_obligations(ctx, scope):
                             if ats and all(a[0] == "param" and (an.vtype.get(a) or {}).get("k") == "uint" for a in ats):
                                 bounded = True
         zero = _zero_weight_cycle(ctx, comp) if bounded else None
-        if bounded and zero:
+        down = _countdown(ctx, comp) if (not bounded or zero) else None
+        if down:
+            out.append(simple_ob("S-RECURSION", fn, "cycle", "+".join(names), fn.sp, PROVED,
+                                 "a budget counter falls by at least one around every call cycle, every decrement is guarded by "
+                                 "counter >= 1, no call inside the cycle raises it, and every entry from outside passes a constant "
+                                 "(%s)" % ", ".join(str(c) for c in down)))
+        elif bounded and zero:
             out.append(simple_ob("S-RECURSION", fn, "cycle", "+".join(names), fn.sp, VIOLATION,
                                  "the depth counter does not grow around the call cycle %s: that kind of nesting is not limited "
                                  "(stack exhaustion aborts)" % " -> ".join(F.nice_of(p).split("::")[-1] for p in zero)))
@@ -273,6 +279,81 @@ def _zero_weight_cycle(ctx, comp):
             if r:
                 return r
     return None
+
+
+def _countdown(ctx, comp):
+    """the mirror image of the depth counter: an unsigned budget parameter that every call inside the recursive component
+    passes on unchanged or lowered by a constant, lowered (behind a guard budget >= 1, so the subtraction cannot wrap) at
+    least once around every call cycle, and set to a constant by every caller outside the component.
+    Returns the sorted entry constants, or None when that is not what the code does."""
+    F, E, G = ctx.F, ctx.E, ctx.G
+    comp = set(comp)
+
+    def uint_params(f):
+        an = E.an(f)
+        return [("param", i + 1) for i in range(len(f.inputs)) if (an.vtype.get(("param", i + 1)) or {}).get("k") == "uint"]
+    budget = {}
+    for p in comp:
+        ups = uint_params(F.fns[p])
+        if len(ups) != 1:
+            return None          # exactly one candidate per function keeps the pairing unambiguous
+        budget[p] = ups[0]
+    weak = {p: set() for p in comp}
+    for p in comp:
+        f = F.fns[p]
+        an = E.an(f)
+        P = E.prover(f)
+        mp = budget[p]
+        for b, info in an.term.items():
+            if info["kind"] != "call" or info["callee"] not in comp:
+                continue
+            tp = budget[info["callee"]]
+            d = lin_add(P.lin(info["args"][tp[1] - 1]), P.lin(mp), -1)
+            if d[1] != () or d[0] > 0:
+                return None      # not a function of the caller's budget, or raised
+            if d[0] <= -1:
+                # guard: budget >= -d at the call
+                g = lin_add(lin_const(-d[0]), P.lin(mp), -1)        # -d - budget <= 0
+                facts = E.facts(f, b)
+                guarded = P.prove_le0(g, facts) or (d[0] == -1 and any(
+                    (fc[0] == "nec" and fc[1] == mp and fc[2] == 0) for fc in facts))
+                if not guarded:
+                    return None  # the subtraction may wrap: the budget is then not a bound
+            else:
+                weak[p].add(info["callee"])
+    color = {}
+
+    def dfs(v):
+        color[v] = 1
+        for w in sorted(weak[v]):
+            if color.get(w) == 1:
+                return True
+            if w not in color and dfs(w):
+                return True
+        color[v] = 2
+        return False
+    for v in sorted(comp):
+        if v not in color and dfs(v):
+            return None
+    # entries
+    consts = set()
+    for p in comp:
+        tp = budget[p]
+        for q in G.callers.get(p, ()):
+            if q in comp or q not in F.fns:
+                continue
+            g = F.fns[q]
+            an = E.an(g)
+            P = E.prover(g)
+            for b, info in an.term.items():
+                if info["kind"] == "call" and info["callee"] == p:
+                    la = P.lin(info["args"][tp[1] - 1])
+                    if la[1] != ():
+                        return None
+                    consts.add(la[0])
+    if not consts:
+        return None
+    return sorted(consts)
 
 
 def consumed_obligations(ctx):
